@@ -1,4 +1,5 @@
 pub mod c06;
+pub mod c08;
 pub mod c10;
 pub mod c12;
 pub mod c15;
@@ -8,7 +9,7 @@ pub mod common;
 use crate::driver::Check;
 
 pub fn all() -> Vec<Box<dyn Check>> {
-    vec![Box::new(c06::C06), Box::new(c19::C19), Box::new(c15::C15), Box::new(c12::C12), Box::new(c10::C10)]
+    vec![Box::new(c06::C06), Box::new(c19::C19), Box::new(c15::C15), Box::new(c12::C12), Box::new(c10::C10), Box::new(c08::C08)]
 }
 pub fn by_id(id: &str) -> Option<Box<dyn Check>> {
     all().into_iter().find(|c| c.id() == id)
